@@ -31,6 +31,8 @@
   --       probEvent M ν ev' = probEvent M ν ev
   --   theorem cg_inconsistent_sound : makeCounterfactualGraph ordf G ev = .ok (g, none) → M.Compatible G → ν.Distinct →
   --       probEvent M ν ev = 0
+  -- (`lemma24For_of_parents` reduces `Lemma24For` to "the parents take the same values", `lemma24For_root` discharges it for
+  --  parentless variables; the structural equation `solve_unforced` is proved for every functional SCM)
   -- i.e. `cg_prob_partial` without its hypothesis `hL`: what is missing is exactly Lemma 24 of Shpitser–Pearl for the test as
   -- coded:   lemma24Holds cf evk a b = true → (cf, evk) reachable from (G, ev) → M.Compatible G → Lemma24For M ν (evk, a, b).
   -- Not mechanised.  These clauses are decided by correspondence + exact evaluation on sampled functional SCMs
@@ -320,6 +322,32 @@ theorem cg_prob_partial (M : Model) (ν : BaseValues) (hν : ν.Distinct)
     cases ht
     rw [hl] at hinv
     exact hinv
+
+open Fscm in
+/-- **Lemma 24, reduced to its premise.**  For a merge of two copies `V_S`, `V_T` of a variable that neither world forces, the
+hypothesis `Lemma24For` of `cg_prob_partial` holds as soon as the PARENTS of `V` (in the model) take the same values in the
+two worlds wherever the remaining conjuncts of the event hold — the two copies have the same mechanism and share the
+noise (`solve_eq_of_parents_eq`, the structural equation).  What stays open is that the syntactic test of cg.py
+(`parents_attain_same_values`) guarantees this premise. -/
+theorem lemma24For_of_parents (M : Model) (G : MG Name) (hM : Compatible M G) (ν : BaseValues) (ev : Event) (a b : Var)
+    (hname : a.name = b.name) (hv : a.name ∈ M.order)
+    (ha : forced (worldOf ν a.ivs) a.name = none) (hb : forced (worldOf ν b.ivs) b.name = none)
+    (hpa : ∀ u, (∀ p ∈ ev, p.1 ≠ a → p.1 ≠ b → holds M u (conjunctOf ν p) = true) →
+      ∀ p ∈ M.pa a.name, solve M u (worldOf ν a.ivs) p = solve M u (worldOf ν b.ivs) p) :
+    Lemma24For M ν (ev, a, b) := by
+  intro u hu
+  simp only [valueOf]
+  rw [← hname] at hb ⊢
+  exact solve_eq_of_parents_eq M hM.topoOrder u _ _ a.name hv ha hb (hpa u hu)
+
+open Fscm in
+/-- unconditional instance: two un-forced copies of a variable WITHOUT parents are the same random variable, so merging them
+is always sound -/
+theorem lemma24For_root (M : Model) (G : MG Name) (hM : Compatible M G) (ν : BaseValues) (ev : Event) (a b : Var)
+    (hname : a.name = b.name) (hv : a.name ∈ M.order) (hroot : M.pa a.name = [])
+    (ha : forced (worldOf ν a.ivs) a.name = none) (hb : forced (worldOf ν b.ivs) b.name = none) :
+    Lemma24For M ν (ev, a, b) :=
+  lemma24For_of_parents M G hM ν ev a b hname hv ha hb (fun _ _ p hp => by simp [hroot] at hp)
 
 /-- the side conditions of `cg_prob_partial` on the worlds hold for the identity order (hence for every permutation of it) -/
 theorem extractInterventions_ok (vs : List Var) :
